@@ -66,7 +66,7 @@ I5 == In("cfg", "k2", <<"", "v8">>)   \* the empty value listed explicitly
 InAtoms == {I1, I2, I3, I4, I5}
 
 GAtomsQ == {True, C1, C2, N1a, S1, Ua, Ub, Ra}
-GAtomsT == {True, C1, C2, N1a, S1, Ua, Ub, Uc, Ra, Rb, I1}
+GAtomsT == {True, C1, C2, N1a, S1, Ua, Ub, Ra, Rb, I1}
 SmallAtoms == {C1, Ua, Ub, Rb}
 
 \* same-key disjunctions (spelled key:(a OR b) by the harness) alone, negated and in context
@@ -90,9 +90,8 @@ GenIn(x, d) ==
   \/ d = "thorough" /\ \/ UpTo(x, GAtomsT, 1)
                        \/ x \in Context(SameKeyOrs, ExprsUpTo(SmallAtoms, 1, {2}))
                        \/ IsOp(x, ExprsUpTo({C1, Ua, Ub}, 1, {2}), 3)
-                       \/ IsOneDeep(x, {C1, Ua, Ub}, 2)
+                       \/ IsOneDeep(x, {C1, Ua}, 2)
                        \/ x \in ProjExprs(ExprsUpTo({True, C3, N2a, Ua, Ub, Ra}, 1, {2}))
-  \/ d = "tiny" /\ x \in (ExprsUpTo(GAtomsQ, 1, {2}) \cup ProjExprs({True, Ua}) \cup SameKeyOrs)
 
 \* expected answers for the blown-up result, from the declarative side only
 HasFill(r) == Len(r.meas) >= 2
